@@ -47,6 +47,9 @@ type fieldInfo struct {
 	Prot                string
 }
 
+// methods that change the object a field refers to (calling them is a write to the field's state)
+var mutatingMethods = map[string]bool{"Reset": true}
+
 var extLock = regexp.MustCompile(`(?i)(requires external locking|locked externally|must be locked|guarded externally)`)
 
 func typeString(e ast.Expr) string {
@@ -236,6 +239,19 @@ func scanBody(fset *token.FileSet, fn, recv, mutex string, external bool, body *
 	}
 	record := func(e ast.Expr, write bool) {
 		ast.Inspect(e, func(n ast.Node) bool {
+			// recv.field.Reset(): the object behind the field is mutated (the stopwatch of the rate limiter statistics)
+			if call, ok := n.(*ast.CallExpr); ok {
+				if outer, ok := call.Fun.(*ast.SelectorExpr); ok && mutatingMethods[outer.Sel.Name] {
+					if inner, ok := outer.X.(*ast.SelectorExpr); ok {
+						if id, ok := inner.X.(*ast.Ident); ok && id.Name == recv {
+							if fi, ok := fields[inner.Sel.Name]; ok && inner.Sel.Name != mutex {
+								fi.Accesses = append(fi.Accesses, access{Func: fn, Write: true, Locked: locked, Pos: fset.Position(inner.Pos()).String()})
+							}
+						}
+					}
+				}
+				return true
+			}
 			sel, ok := n.(*ast.SelectorExpr)
 			if !ok {
 				return true
